@@ -262,7 +262,8 @@ def gen_edge(rng, n, tier):
             m = rng.randint(1, 5)
             base = rand_geo(rng, model=False)
             pts = [[max(-180.0, min(180.0, base[0] + rng.uniform(-0.2, 0.2))), max(-89.9, min(89.9, base[1] + rng.uniform(-0.2, 0.2))), rng.uniform(-1000, 10000)] for _ in range(m)]
-            out.append({'kind': 'track', 'pts': pts, 'base': base if rng.random() < 0.7 else None})
+            out.append({'kind': 'track', 'pts': pts, 'base': base if rng.random() < 0.7 else None,
+                        'base2': [max(-180.0, min(180.0, base[0] + rng.uniform(-0.1, 0.1))), max(-89.9, min(89.9, base[1] + rng.uniform(-0.1, 0.1))), rng.uniform(-100, 1000)] if rng.random() < 0.6 else None})
     return out
 
 
@@ -288,10 +289,17 @@ def run_edge(case):
     enu = [[o.position.getX(), o.position.getY(), o.position.getZ()] for o in tr]
     srid1 = tr.getSRID()
     rec = tr.base
+    reb = None
+    if case.get('base2'):                       # re-base the local track on a second base (ENU -> ENU), the recorded base must follow
+        b2 = GeoCoords(*case['base2'])
+        tr.toENUCoords(b2)
+        exp2 = [GeoCoords(*p).toENUCoords(b2) for p in pts]
+        reb = {'enu': [[o.position.getX(), o.position.getY(), o.position.getZ()] for o in tr], 'expect': [[e.E, e.N, e.U] for e in exp2],
+               'base': [tr.base.lon, tr.base.lat, tr.base.hgt] if tr.base is not None else None}
     tr.toGeoCoords()
     geo = [[o.position.getX(), o.position.getY(), o.position.getZ()] for o in tr]
     return {'enu': enu, 'expect': [[e.E, e.N, e.U] for e in expect], 'srid1': srid1, 'srid2': tr.getSRID(), 'base': [rec.lon, rec.lat, rec.hgt] if rec is not None else None,
-            'geo': geo, 'times': [o.timestamp.toAbsTime() for o in tr], 'n': tr.size()}
+            'geo': geo, 'times': [o.timestamp.toAbsTime() for o in tr], 'n': tr.size(), 'rebase': reb}
 
 
 def oracle_edge(case, obs):
@@ -322,6 +330,13 @@ def oracle_edge(case, obs):
     used = case['base'] if case['base'] else case['pts'][0]
     if obs['base'] is None or not (dlon(obs['base'][0], used[0]) <= 1e-9 and abs(obs['base'][1] - used[1]) <= 1e-9 and abs(obs['base'][2] - used[2]) <= 1e-3):
         return 'Track.toENUCoords with base %r recorded the base %r' % (used, obs['base'])
+    if obs.get('rebase'):
+        rb = obs['rebase']; b2 = case['base2']
+        for a, b in zip(rb['enu'], rb['expect']):
+            if not all(abs(u - v) <= 1e-3 for u, v in zip(a, b)):
+                return 'track re-based from %r to %r has local coordinates %r, converting each position about the new base gives %r' % (used, b2, rb['enu'], rb['expect'])
+        if rb['base'] is None or not (dlon(rb['base'][0], b2[0]) <= 1e-9 and abs(rb['base'][1] - b2[1]) <= 1e-9 and abs(rb['base'][2] - b2[2]) <= 1e-3):
+            return 'track re-based on %r recorded the base %r' % (b2, rb['base'])
     if obs['srid1'] != 'ENU' or obs['srid2'] != 'Geo':
         return 'coordinate systems after conversion: %r then %r' % (obs['srid1'], obs['srid2'])
     for p, g in zip(case['pts'], obs['geo']):
@@ -333,7 +348,7 @@ def oracle_edge(case, obs):
 S_EDGE = Stream(
     name='edge', budget={'quick': 400, 'thorough': 20000},
     rule=('oracle only: positions and bases with longitude exactly 180, -180, 0, +-90, latitudes +-89.9 and 0, heights at both limits (50%); Lambert-93 forward / inverse inside metropolitan France (25%); '
-          'whole tracks of 1..5 geographic positions converted to the local frame with an explicit base or the default one and back (25%): pointwise conversion, recorded base, unchanged count and timestamps'),
+          'whole tracks of 1..5 geographic positions converted to the local frame with an explicit base or the default one, re-based on a second base (60% of them) and back (25%): pointwise conversion, recorded base after each step, unchanged count and timestamps'),
     imports='From Coq Require Import List.', case_type='unit', check_def='Definition ok (c : unit) : bool := true.',
     generate=gen_edge, run_impl=run_edge, coq_case=lambda c, o: None, oracle=oracle_edge, klass=lambda c, o: c['kind'])
 
